@@ -193,6 +193,10 @@ def main(argv=None):
   seed = args.seed if args.seed is not None else int(os.environ.get('VERIF_SEED', '1') or 1)
   prop = args.prop.upper()
   ctx = Ctx(prop, args.tier, seed)
+  if not args.replay:
+    import glob
+    for old in glob.glob(os.path.join(HOME, 'replays', '%s-*.json' % prop)):
+      os.unlink(old)
   try:
     drv = importlib.import_module('pv.drive_%s' % prop)
     if args.replay:
